@@ -43,3 +43,54 @@ Theorem C09_reject_reparent_old :
     step cf d (RpUpdate v u name (Some newp)) = (d', rs) -> status rs = 400 /\ d' = d.
 Proof. exact c09_reject_reparent_old. Qed.
 Print Assumptions C09_reject_reparent_old.
+
+(* ---------------------------------------------------------------------------------------------------------------
+   Under interleaving (Model/ConcTree.v: POST = one transaction; PUT = load + save, the save re-reads the provider but
+   writes the name and - when the body had no parent key - the parent that was LOADED; DELETE = load + delete; every
+   other request is a thread of Model/Conc.v).  The property itself quantifies over request sequences; these theorems
+   say what survives when requests overlap. *)
+From PV Require Import Model.ConcTree Proofs.C09c.
+
+(* a thread run alone is the sequential handler *)
+Theorem C09_thread_alone_is_handler : forall cf d r n, is_rp_req r -> (2 <= n)%nat ->
+  tt_run_thread cf n (ttinit cf r) d = (TTDone (snd (step cf d r)), fst (step cf d r)).
+Proof. exact tt_serial. Qed.
+Print Assumptions C09_thread_alone_is_handler.
+
+(* any number of concurrent requests of any kind, any schedule, any prefix of it: the hierarchy stays a forest with
+   correct root pointers *)
+Theorem C09_forest_all_schedules : forall cf reqs s d, Forest d ->
+  Forest (snd (tt_run_sched cf s (map (ttinit cf) reqs) d)).
+Proof. exact C09c_forest_all_schedules. Qed.
+Print Assumptions C09_forest_all_schedules.
+
+Theorem C09_forest_every_prefix : forall cf reqs s d k, Forest d -> Forest (snd (tt_exec cf reqs (firstn k s) d)).
+Proof. exact C09c_forest_every_prefix. Qed.
+Print Assumptions C09_forest_every_prefix.
+
+Theorem C09_forest_reachable_concurrent : forall cf setup reqs s, Forest (snd (tt_exec cf reqs s (run cf db0 setup))).
+Proof. exact C09c_forest_reachable. Qed.
+Print Assumptions C09_forest_reachable_concurrent.
+
+(* a provider request that ends in an error changed nothing in the step that ended it *)
+Theorem C09_rejected_no_effect_concurrent : forall cf t d r d',
+  rp_thread t -> ttstep cf t d = (TTDone r, d') -> 400 <= status r -> d' = d.
+Proof. exact C09c_rejected_no_effect. Qed.
+Print Assumptions C09_rejected_no_effect_concurrent.
+
+(* what does NOT survive: PUT /resource_providers/{uuid} carries no generation; a rename (no parent key) overtaken by a
+   re-parenting writes the OLD parent back - both answered 200, no serial order gives that state.  Observed on the
+   service by the interleaving stream (scenario rename-unparented-vs-reparent); by design, not a finding of C09. *)
+Theorem C09_rename_reverts_reparent :
+  let conc := tt_exec cf0 [rr_A; rr_B] rr_sched rr_d0 in
+  let mid := tt_exec cf0 [rr_A; rr_B] (firstn 3 rr_sched) rr_d0 in
+  map tt_done (fst conc) = [Some (okg 200 0); Some (okg 200 0)] /\
+  parent_of rr_d0 3 = Some (Some 1) /\
+  statuses (fst mid) = [-1; 200] /\
+  parent_of (snd mid) 3 = Some (Some 2) /\
+  parent_of (snd conc) 3 = Some (Some 1) /\
+  (forall order : list req, Permutation.Permutation [rr_A; rr_B] order ->
+     run_statuses cf0 rr_d0 order = [200; 200] /\
+     parent_of (run cf0 rr_d0 order) 3 = Some (Some 2) /\ core_differs (run cf0 rr_d0 order) (snd conc) = true).
+Proof. exact C09c_rename_reverts_reparent. Qed.
+Print Assumptions C09_rename_reverts_reparent.
